@@ -53,7 +53,7 @@ def run(tier, seed_):
     recs = []
     jobs = common.NCPU
     with ProcessPoolExecutor(max_workers=jobs) as ex:
-        chunks = [(shapes[i::jobs], i * 100000, seed_) for i in range(jobs)]
+        chunks = [(shapes[i::jobs], i * 100003, seed_) for i in range(jobs)]
         for part in ex.map(_shape_worker, [c for c in chunks if c[0]]):
             recs += part
         for kname in ("H", "SC", "DH"):
